@@ -1,13 +1,19 @@
 #!/bin/bash
-# verifies every seeded/<dir> that has no meta.json yet, one at a time (single runner under flock)
+# verifies every seeded/<dir> that has no meta.json yet; several runners may work in parallel
+# (usage: tools/seeded_queue.sh <runner-id>), each directory is claimed with an atomic mkdir
 cd /verif
-exec 9>/verif/build/tmp/svq.lock
+id=${1:-0}
+exec 9>/verif/build/tmp/svq_$id.lock
 flock -n 9 || exit 0
 while true; do
   todo=""
-  for d in seeded/*/; do d=${d%/}; [ -f $d/patch.diff ] && [ ! -f $d/meta.json ] && [ ! -f $d/.skip ] && todo=$d && break; done
+  for d in seeded/*/; do
+    d=${d%/}
+    [ -f $d/patch.diff ] && [ ! -f $d/meta.json ] && [ ! -f $d/.skip ] && mkdir $d/.claim 2>/dev/null && todo=$d && break
+  done
   [ -z "$todo" ] && break
   extra=""
   [ -f $todo/checks.txt ] && extra=$(cat $todo/checks.txt)
   timeout 5400 python3 tools/seeded.py verify $todo $extra > build/tmp/sv_$(basename $todo).log 2>&1 || touch $todo/.skip
+  rmdir $todo/.claim 2>/dev/null
 done
